@@ -25,6 +25,7 @@ EXPLANATION = (
     "decision points (R01.6), anchoring requires verdict and non-empty reasons (R01.7), and neighbour scans of "
     "conditions that can hold for a gene without hits range over all genes in range (R01.8)."
     " R01.11: local_only (set by cds(...)) is handed on, or forced to True, at every evaluation step - never left to a callee's default."
+    " R01.12: a table keyed by profile name and filled from a gene's hits aggregates (a profile can hit a gene more than once); a dictionary comprehension over the hits is last-wins."
 )
 UNDECIDED = [
     "truth table of arbitrary condition nestings against the documented formula",
@@ -825,6 +826,48 @@ def r01_11(ctx: Ctx) -> None:
         raise AnalysisError(f"R01.11: expected at least 4 calls handing on local_only, found {count}")
 
 
+def r01_12(ctx: Ctx) -> None:
+    """ a gene's hits are a multiset: one profile can hit a gene more than once (two copies of a domain; dynamic profiles
+        are not de-duplicated).  A table keyed by profile name that is filled from a list of hits therefore has to
+        aggregate - store under a comparison with what is already stored, as the per-profile best-hit filter does - and a
+        dictionary comprehension over the hits cannot: the last listed hit wins, and `minscore(p, s)` then asks about that
+        hit's score instead of 'some hit of p scores >= s'. """
+    from ..flow import path_facts
+    count = 0
+    for rel in (RP, CP):
+        for qual, func in ctx.repo.functions(rel):
+            if "." in qual and qual.split(".")[-1] != qual.split(".")[-1]:
+                continue
+            cfg = None
+            for node in walk_local(func):
+                if isinstance(node, ast.DictComp) and isinstance(node.key, ast.Attribute) and node.key.attr == "query_id" \
+                        and len(node.generators) == 1 and txt(node.key.value) == txt(node.generators[0].target):
+                    count += 1
+                    ctx.ob("R01.12", rel, node, qual, f"table keyed by profile name {txt(node)[:50]}", False,
+                           "a profile-keyed table built from a gene's hits aggregates over the hits of one profile",
+                           detail="a dictionary comprehension keeps the last listed hit of each profile: with hits p:200, p:100 on one "
+                           "gene, minscore(p, 150) is judged on 100 and the gene is not reported", form=txt(node)[:120])
+                if isinstance(node, ast.Assign) and isinstance(node.targets[0], ast.Subscript) \
+                        and isinstance(node.targets[0].slice, ast.Attribute) and node.targets[0].slice.attr == "query_id" \
+                        and enclosing_loops(node, stop=func):
+                    table = txt(node.targets[0].value)
+                    key = txt(node.targets[0].slice)
+                    cfg = cfg or CFG(func)
+                    compared = any(isinstance(x, ast.Compare) and (f"{table}.get({key}" in txt(x) or f"{table}[{key}]" in txt(x))
+                                   for e, _ in path_facts(cfg, node) for x in ast.walk(e))
+                    if not compared:
+                        # the stored value may have been read into a local first
+                        names = {n.id for e, _ in path_facts(cfg, node) for n in ast.walk(e) if isinstance(n, ast.Name)}
+                        compared = any(f"{table}.get({key}" in txt(v) or f"{table}[{key}]" in txt(v)
+                                       for name in names for v in bound_from(func, name))
+                    count += 1
+                    ctx.ob("R01.12", rel, node, qual, f"table keyed by profile name {table}[{key}]", compared,
+                           "a profile-keyed table built from a gene's hits aggregates over the hits of one profile (the store is "
+                           "governed by a comparison with the value already stored)", form=stmt_key(node)[:100])
+    if count < 1:
+        raise AnalysisError("R01.12: the per-profile best-hit table of filter_result_multiple was not found")
+
+
 def run(ctx: Ctx) -> None:
     ctx.rule("R01.1", "in_range is strict distance < cutoff with the ring distance iff circular; cutoff role", floor=5)
     ctx.rule("R01.2", "negation reaches every verdict of every condition class", floor=12)
@@ -847,3 +890,5 @@ def run(ctx: Ctx) -> None:
     r01_10(ctx)
     ctx.rule("R01.11", "local_only is handed on at every evaluation step", floor=4)
     r01_11(ctx)
+    ctx.rule("R01.12", "tables keyed by profile name aggregate over a gene's hits", floor=1)
+    r01_12(ctx)
